@@ -159,7 +159,7 @@ pub fn register(l: &mut Vec<Obl>) {
             let (p, q2) = (LinSrgb::<T>::new(v[0] * T::k(0.01), v[0] * T::k(0.01), v[2] * T::k(0.01)), LinSrgb::<T>::new(v[2] * T::k(0.01), v[2] * T::k(0.01), v[0] * T::k(0.01)));
             [x.delta_e(y), x.improved_delta_e(y), x.hybrid_distance(y), p.relative_contrast(q2)]
         });
-    obl!(l; "c07_xyz_to_cam16", "C07", q,
+    obl!(l; "c07_xyz_to_cam16", "C07", t,
         "XYZ -> CAM16 (default viewing conditions D65, L_A = 40, Y_b = 20, average surround) for every XYZ colour of the documented range whose three CAT16 cone responses are non-negative (all real colours; see the known finding for the rest): every division, square root and power the code executes is defined",
         ["Cam16::from_xyz", "cam16::math::xyz_to_cam16", "cam16::math::DependentParameters::adapt"],
         [var("x", 0.0, 0.95047), var("y", 0.0, 1.0), var("z", 0.0, 1.08883)];
@@ -187,9 +187,11 @@ pub fn register(l: &mut Vec<Obl>) {
             r
         });
     obl!(l; "c07_xyz_to_cam16_whole_box", "C07", q,
-        "XYZ -> CAM16 over the whole documented XYZ box: the lightness power J = 100 (A/A_w)^(c z) has a non-negative base (witness of the known finding: the achromatic response A is negative for colours with a negative cone response, e.g. XYZ = (0, 0, 0.0002))",
+        "XYZ -> CAM16 inside the documented XYZ box: the lightness power J = 100 (A/A_w)^(c z) has a non-negative base (witness of the known finding: the achromatic response A is negative for colours with a negative cone response; the obligation ranges over the corner X, Y <= 1e-7, Z in [1e-4, 1e-2] of the box)",
         ["Cam16::from_xyz", "cam16::math::xyz_to_cam16"],
-        [var("x", 0.0, 0.95047), var("y", 0.0, 1.0), var("z", 0.0, 1.08883)];
+        // a corner of the documented box where the achromatic response is negative throughout (dark imaginary blues), so that
+        // whichever model the solver returns replays natively
+        [var("x", 0.0, 1e-7), var("y", 0.0, 1e-7), var("z", 1e-4, 1e-2)];
         |v| {
             let mut r = Res::<B>::new();
             let p = palette::cam16::Parameters::<palette::cam16::StaticWp<wp::D65>, <T as palette::num::FromScalar>::Scalar>::default_static_wp(40.0).bake();
